@@ -12,7 +12,6 @@ import (
 	"sync"
 	"testing"
 
-	"github.com/gcash/bchd/chaincfg"
 	"github.com/gcash/bchutil"
 	"pgregory.net/rapid"
 )
@@ -608,33 +607,7 @@ func TestC02(t *testing.T) {
 		if len(ev.harnessErrors) > 0 {
 			return
 		}
-		// two custom networks are registered (process-wide; this process runs C02 only) whose legacy version
-		// bytes collide: 0xa1 is P2PKH on one and P2SH on the other, 0xa2 the other way round.  A legacy string
-		// with such a byte cannot be attributed to one kind and must not be accepted as either.
-		custA, custB := chaincfg.MainNetParams, chaincfg.MainNetParams
-		custA.Name, custA.Net, custA.CashAddressPrefix, custA.SlpAddressPrefix = "custa", 0xa1a1a1a1, "bchcusta", "slpcusta"
-		custA.LegacyPubKeyHashAddrID, custA.LegacyScriptHashAddrID, custA.PrivateKeyID = 0xa1, 0xa2, 0xa3
-		custA.HDPrivateKeyID, custA.HDPublicKeyID = [4]byte{0x0a, 1, 1, 1}, [4]byte{0x0a, 1, 1, 2}
-		custB.Name, custB.Net, custB.CashAddressPrefix, custB.SlpAddressPrefix = "custb", 0xb2b2b2b2, "bchcustb", "slpcustb"
-		custB.LegacyPubKeyHashAddrID, custB.LegacyScriptHashAddrID, custB.PrivateKeyID = 0xa2, 0xa1, 0xa4
-		custB.HDPrivateKeyID, custB.HDPublicKeyID = [4]byte{0x0b, 1, 1, 1}, [4]byte{0x0b, 1, 1, 2}
-		if err := chaincfg.Register(&custA); err != nil {
-			ev.HarnessError("cannot register custom network: %v", err)
-			return
-		}
-		if err := chaincfg.Register(&custB); err != nil {
-			ev.HarnessError("cannot register custom network: %v", err)
-			return
-		}
-		custC := chaincfg.MainNetParams
-		custC.Name, custC.Net, custC.CashAddressPrefix, custC.SlpAddressPrefix = "custc", 0xc3c3c3c3, "bchcustc", "slpcustc"
-		custC.LegacyPubKeyHashAddrID, custC.LegacyScriptHashAddrID, custC.PrivateKeyID = 0xb1, 0xb2, 0xb3
-		custC.HDPrivateKeyID, custC.HDPublicKeyID = [4]byte{0x0c, 1, 1, 1}, [4]byte{0x0c, 1, 1, 2}
-		if err := chaincfg.Register(&custC); err != nil {
-			ev.HarnessError("cannot register custom network: %v", err)
-			return
-		}
-		nets = append(nets, netInfo{"custa", &custA}, netInfo{"custb", &custB}, netInfo{"custc", &custC})
+		// custom networks: see setupProp
 		for _, ver := range []byte{0xb1, 0xb2} {
 			kC02.One(ev, c02Case{S: refB58CheckEncode(bytes.Repeat([]byte{0x44}, 20), ver), Class: "B"})
 		}
